@@ -6,14 +6,14 @@ PROPS["C19"] = dict(
                     race=int(_os.environ.get("C19_RACE", "24")), race_timeout=3000,
                     require=["kind.esgz", "kind.zstd", "kind.ext", "kind.extll", "api.common", "api.perlayer", "parallel",
                              "src.none", "src.gzip", "src.zstd", "src.esgz", "fam.oci", "fam.docker", "fam.ocind",
-                             "pre.ingest", "pre.retry", "pre.interrupt", "pre.interrupt.left", "gate.parked",
+                             "pre.ingest", "pre.retry", "pre.interrupt", "pre.interrupt.left", "gate.parked", "pre.plant-none", "pre.plant-stale", "pre.plant-right", "result.planted.blob.reproduced",
                              "fin.ok", "fin.fail", "fin.multi", "fin.none", "fin.ok.repeated", "fin.ok.after.more.layers", "res.ok", "result.blob.existed"])],
     rule="images of 1..6 generated tar layers stored uncompressed / gzip / zstd / already eStargz / already zstd:chunked under OCI, OCI-nondistributable, "
          "Docker and Docker-foreign media types, with none / distribution-source / stale uncompressed labels, converted by ONE converter instance "
          "(estargz, zstdchunked, external-TOC, external-TOC lossless; common-option and per-layer-option constructors; option slice with spare capacity; "
          "chunk / min-chunk / level / prioritized files) sequentially or all layers in parallel, after an interrupted conversion left an ingest under the "
          "writer ref, after a conversion with OTHER options died mid-stream (fault-injecting content writer) leaving a prefix of its blob under the same ref, "
-         "or as a retry; forced schedule for external-TOC converters (a wrapping content store parks the first layer about to store its TOC until another layer "
+         "as a retry, or with the would-be result blob already in the store with no / stale / right labels (all converters); forced schedule for external-TOC converters (a wrapping content store parks the first layer about to store its TOC until another layer "
          "is converted completely); finalize called 0..4 times per converter instance with failing (unparsable) and good target references, "
          "repeated and interleaved with further layer conversions; thorough tier: the same harness under the Go race detector (all layers in parallel, shared option slices incl. the "
          "WithAllowPrioritizeNotFound slice as ctr-remote passes it); non-trivial = at least one layer converted; distinct = distinct (kind, inputs, observed descriptors, TOC image)",
